@@ -414,7 +414,7 @@ package document
 
 // ---------------------------------------------------------------- iterators over caller-supplied callbacks
 // The callbacks are caller code: the engine assumes that they return and write no document memory (the callback-purity
-// assumption that every evidence file lists) and does not model a nil function value (a nil fn / predicate panics in the real code: caller error, reported).
+// assumption that every evidence file lists) ; a nil fn / predicate is rejected with an error before anything is read (it used to panic).
 // What is proved is the part the library owns: no index leaves the grid (ragged tables included), nothing that existed
 // before the call is written, the iterator the loop drives is the function's own.
 
@@ -422,6 +422,7 @@ package document
 //@ props C09
 //@ requires t != nil
 //@ modifies nothing
+//@ ensures fn == nil ==> err != nil
 //@ loop 1
 //@   invariant iterator != nil && fresh(iterator) && iterator.table == t && unchangedHeap()
 
@@ -429,6 +430,7 @@ package document
 //@ props C09
 //@ requires t != nil
 //@ modifies nothing
+//@ ensures fn == nil ==> err != nil
 //@ ensures !(0 <= rowIndex && rowIndex < len(t.Rows)) ==> err != nil
 //@ loop 1
 //@   invariant 0 <= col && col <= colCount && unchangedHeap()
@@ -438,6 +440,7 @@ package document
 //@ props C09
 //@ requires t != nil
 //@ modifies nothing
+//@ ensures fn == nil ==> err != nil
 //@ ensures !(0 <= colIndex && len(t.Rows) > 0 && colIndex < len(t.Rows[0].Cells)) ==> err != nil
 //@ loop 1
 //@   invariant 0 <= row && row <= rowCount && unchangedHeap()
@@ -447,6 +450,7 @@ package document
 //@ props C09
 //@ requires t != nil
 //@ modifies nothing
+//@ ensures predicate == nil ==> err != nil && len(result0) == 0
 
 //@ func (*Table).FindCellsByText
 //@ props C09
